@@ -15,7 +15,7 @@ from scripted_server import ScriptedServer, server_init
 TRUSTED_BASE = ["Model/Exit.v: the exit-status machine of VNCDoCLIFactory / build_tool / the timeout timer, hand-written; which "
                 "reactor events a given server behaviour produces is Twisted's and the kernel's business and is observed, not proved",
                 "real vncdo processes against scripted loopback servers (harness/scripted_server.py)"]
-ASSUMPTIONS = ["the wall-clock bound is measured with a constant covering interpreter start-up (T + 2.5 s; start-up is about 0.5-1 s)",
+ASSUMPTIONS = ["the wall-clock bound is T + 1 s + twice the cost of a vncdo process that fails at once, measured in the same run (about 0.5 s when idle)",
                "PARTIAL by nature: the theorems cover the status machine for every event sequence; the mapping from server behaviour to "
                "events and the wall clock are sampled by the campaign"]
 
@@ -93,7 +93,8 @@ def scenarios(rng, tmp, tier):
         "key+capture": (["key", "x", "capture", cap, "key", "y"], True),
     }
     versions = [b"003.003", b"003.007", b"003.008"]
-    S.append(dict(name="nobody listens", actions=None, args=["key", "a"], want="nonzero", events=["connfailed", "stop"]))
+    for _k in range(3):
+        S.append(dict(name="nobody listens (%d)" % _k, actions=None, args=["key", "a"], want="nonzero", events=["connfailed", "stop"]))
     for v in versions:
         vs = v.decode()
         # ---- the connection ends during the handshake
@@ -267,6 +268,10 @@ def run(tier, seed, model):
         for sc, (rc, wall, out, got, eof) in zip(S, results):
             if sc.get("complete") and rc == 0:
                 ref_bytes[(tuple(sc["args"]), sc.get("password") is not None)] = got
+        # what a vncdo process costs on this machine right now (interpreter start, imports, reactor stop): the runs against
+        # a port nobody listens on do nothing else; the wall-clock bound scales with it so that load cannot raise a false alarm
+        startup = max([w for sc, (rc, w, *_rest) in zip(S, results) if sc["actions"] is None and rc is not None] + [0.5])
+        camp.extra["startup_s"] = round(startup, 2)
         reqs = []
         for sc, (rc, wall, out, got, eof) in zip(S, results):
             camp.evaluations += 1
@@ -283,7 +288,7 @@ def run(tier, seed, model):
                 why = f"exit status {rc} although every command was carried out and vncdo closed the connection ({out.strip()[-120:]})"
             elif rc == 0 and not eof and sc["actions"] is not None:
                 why = "exit status 0 but the server never saw vncdo close the connection"
-            elif T is not None and wall > T + 2.5:
+            elif T is not None and wall > T + 1.0 + 2.0 * startup:
                 why = f"--timeout {T}: the process needed {wall:.1f} s"
             if why:
                 camp.oracle_failures.append({"kind": "oracle", "property": "C09", "case": {"scenario": sc["name"]},
@@ -305,7 +310,7 @@ def run(tier, seed, model):
                  "authentication: a well-behaved server, and close / reset / unknown message / unknown encoding / silence (+ --timeout) "
                  "at the point the script depends on the server; timeouts before and after the banner and during a long pause; "
                  "12 MiB of output against a server that reads all, stops reading (--timeout) or resets after 64 KiB; judged: 0 iff "
-                 "the scenario is a completed script closed by vncdo (server saw EOF), termination, wall time <= T + 2.5 s; the "
+                 "the scenario is a completed script closed by vncdo (server saw EOF), termination, wall time <= T + 1 s + 2 x measured process cost; the "
                  "status machine compared on the scenario's event sequence; non-trivial = scenario")
     return camp
 
